@@ -8,6 +8,7 @@ package main
 import (
 	"fmt"
 	"go/ast"
+	"go/constant"
 	"go/types"
 	"sort"
 	"strings"
@@ -841,4 +842,115 @@ func rtMatcherSemantics(a *aggregator, v *rtView) {
 	}
 	a.Decide(len(bad) == 0 && n > 10, "R-matcher-semantics", construct, cfg, pos,
 		fmt.Sprintf("%d calls: every position (the end symbol's included) of 6 inputs, literals shorter than, equal to and longer than the rest of the input: verdict, new position and no out-of-range index as defined", n), strings.Join(bad, "; "))
+}
+
+// bufferSemantics evaluates Init (and then reset with another Buffer on the
+// same instance) on inputs that include NUL, the last code point, truncated
+// and adjacent invalid UTF-8 bytes: in both places the runes live in (the
+// parser's field and the variable captured by the rule functions) the result
+// must be []rune(Buffer) followed by the end symbol — one symbol per rune of
+// the string, one U+FFFD per invalid byte.
+func bufferSemantics(v *rtView) (bad []string, und string, n int) {
+	endObj, _ := v.in.Pkg.Scope().Lookup("endSymbol").(*types.Const)
+	if endObj == nil {
+		return nil, "constant endSymbol not found", 0
+	}
+	end, _ := constant.Int64Val(endObj.Val())
+	texts := []string{"", "a", "ab\x00c", "世界", "\U0010FFFF!", "\xff", "a\xffb", "ab\xff\xfecd", "\xe4\xb8", "x\xf0\x9f\x98", "\xc0\x80", "\xed\xa0\x80", "�\xff�", string(rune(0x10FFFF)) + "\xfe\xfe\xfe",
+		"\ufeffab", "a\ufeff", "\ufffe\uffff", " \t\r\n", "\r\nx", "\u0085\u2028\u00a0", "e\u0301", "\U0001F600\u200d\U0001F600"}
+	want := func(s string) string {
+		rs := append([]rune(s), rune(end))
+		out := make([]string, len(rs))
+		for i, r := range rs {
+			out[i] = fmt.Sprintf("%x", r)
+		}
+		return strings.Join(out, " ")
+	}
+	show := func(x Value) string {
+		s, ok := x.(*SliceV)
+		if !ok || s == nil {
+			return "<" + describe(x) + ">"
+		}
+		out := make([]string, len(s.elems))
+		for i, e := range s.elems {
+			if r, ok := e.(int64); ok {
+				out[i] = fmt.Sprintf("%x", r)
+			} else {
+				out[i] = "?"
+			}
+		}
+		return strings.Join(out, " ")
+	}
+	for i, text := range texts {
+		if und != "" {
+			break
+		}
+		func() {
+			defer func() {
+				if p := recover(); p != nil {
+					switch x := p.(type) {
+					case nilDeref:
+						bad = append(bad, fmt.Sprintf("nil dereference at %s (Buffer %q)", x.pos, text))
+					case goPanic:
+						bad = append(bad, fmt.Sprintf("panic: %s at %s (Buffer %q)", x.msg, x.pos, text))
+					case undecided:
+						und = x.msg
+					default:
+						panic(p)
+					}
+				}
+			}()
+			ie, err := newInitEnv(v.in, text, false)
+			if err != nil {
+				panic(undecided{err.Error()})
+			}
+			check := func(when, buf string) {
+				n++
+				w := want(buf)
+				if c := ie.vars["buffer"]; c == nil {
+					panic(undecided{"Init declares no variable named buffer"})
+				} else if g := show(c.v); g != w {
+					bad = append(bad, fmt.Sprintf("%s with Buffer %q the rule functions read the symbols [%s], the string's runes and the end symbol are [%s]", when, buf, g, w))
+				}
+				if f := ie.p.field("buffer"); f != nil {
+					if g := show(f.v); g != w {
+						bad = append(bad, fmt.Sprintf("%s with Buffer %q the parser's rune buffer is [%s], the string's runes and the end symbol are [%s]", when, buf, g, w))
+					}
+				}
+			}
+			check("after Init", text)
+			// the same instance, another input (Reset's path), twice: the second reset sees a buffer that already ends in the sentinel
+			next := texts[(i+5)%len(texts)]
+			for k := 0; k < 2; k++ {
+				ie.p.field("Buffer").v = next
+				ie.it.steps = 0
+				ie.it.callValue(nil, ie.p.field("reset").v, nil)
+				check("after reset", next)
+			}
+			ie.it.steps = 0
+			ie.it.callValue(nil, ie.p.field("reset").v, nil)
+			check("after a reset without a new Buffer", next)
+		}()
+	}
+	sort.Slice(bad, func(i, j int) bool { return len(bad[i]) < len(bad[j]) })
+	bad = uniq(bad)
+	if len(bad) > 3 {
+		bad = append(bad[:3], fmt.Sprintf("… %d more", len(bad)-3))
+	}
+	return bad, und, n
+}
+
+func rtBufferSemantics(a *aggregator, v *rtView) {
+	construct := "Init/reset: the symbols read are the runes of Buffer followed by the end symbol"
+	pos := ""
+	if f := v.cl["p.reset"]; f != nil {
+		pos = v.in.srcPos(f.Pos())
+	}
+	bad, und, n := bufferSemantics(v)
+	if und != "" {
+		a.Und("R-buffer-semantics", construct, v.in.Name, pos, und)
+		return
+	}
+	a.Decide(len(bad) == 0 && n > 10, "R-buffer-semantics", construct, v.in.Name, pos,
+		fmt.Sprintf("%d states: Init and repeated reset on 22 inputs (empty, NUL, astral, truncated sequences, adjacent invalid bytes, surrogates, overlong forms, byte order mark, non-characters, white space and line separators, combining marks): field and captured buffer equal []rune(Buffer)+endSymbol", n), strings.Join(bad, "; "))
 }
